@@ -22,7 +22,9 @@ def run(tier):
         'one-shot/hex entry points on every prefix; length-encoding carries from preset byte counters.  quick: 10 builds (gcc -mssse3 does not compile), counter '
         'pattern L=2 blocks+1 x alignments {0,1,3,4,8,16,31,32,63}, other three patterns L=1 block+1 x {0,1,31}; thorough: the '
         'whole build matrix with L=3 blocks+1 (other patterns 2 blocks+1), plus the all-transforms build with every pattern at '
-        'L=4 blocks+1 and all 64 alignments for the counter pattern.  A transition is non-trivial when c>0 and it was confluent')
+        'L=4 blocks+1 and all 64 alignments for the counter pattern.  A transition is non-trivial when c>0 and it was confluent.  '
+        'Dead-stack scan (configurations residue:*): the one-shot entry points and init+update+final run on a stack the harness owns, '
+        'in unsanitised builds of every optimisation level; the message tail must not be found there afterwards')
     rep.assumptions = [
         'hashlib (OpenSSL) is the reference for MD5, SHA-1, SHA-224/256/384/512',
         'Streebog reference = the construction of the standard written out in harness/C04/ref_streebog.c over the tables pi, tau, A, C '
@@ -33,4 +35,4 @@ def run(tier):
         'preset-counter cases: the reference is the standard\'s padding rule applied to (IV, data, length field = (P+m)*8 bits), computed by '
         'compression functions written out in gen_ref.py (constants derived from primes / sin) and validated against hashlib in the same run',
     ]
-    matrix.run_matrix(rep, PROP, tier, 'harness/C04/h_c04.c', 'h_c04')
+    matrix.run_matrix(rep, PROP, tier, 'harness/C04/h_c04.c', 'h_c04', residue_set=0)
